@@ -18,6 +18,7 @@ import (
 	"context"
 	"database/sql"
 	"encoding/json"
+	"flag"
 	"fmt"
 	"math/rand"
 	"sort"
@@ -1470,6 +1471,10 @@ func init() {
 		if err := json.Unmarshal(input, &p); err != nil {
 			r.Note("bad replay input: %v", err)
 			return
+		}
+		// main.go applies -driver only after the replay branch; honour it here
+		if f := flag.Lookup("driver"); f != nil && f.Value.String() != "" {
+			driverPath = f.Value.String()
 		}
 		e := open16()
 		real := e.runReal(&p)
